@@ -125,7 +125,9 @@ async fn dispatch(c: &Case11, reg: Arc<KeyRegistry<KeyPair>>, encs: &[Enc], over
     match c.shards {
         1 => world_run::<1>(c, reg, encs, overall, grace).await,
         2 => world_run::<2>(c, reg, encs, overall, grace).await,
-        _ => world_run::<3>(c, reg, encs, overall, grace).await,
+        3 => world_run::<3>(c, reg, encs, overall, grace).await,
+        4 => world_run::<4>(c, reg, encs, overall, grace).await,
+        _ => world_run::<5>(c, reg, encs, overall, grace).await,
     }
 }
 
@@ -225,10 +227,10 @@ fn run() {
     validator_component(&mut r);
     let mut rng = StdRng::seed_from_u64(seed);
     let reg = Arc::new(KeyRegistry::<KeyPair>::random(1, &mut rng));
-    let n = 3usize;
+    let n = if thorough { 6usize } else { 3 };
     let encs = make_reports(n, seed + 1, &reg);
     let mut cases: Vec<Case11> = Vec::new();
-    let max_s = 3;
+    let max_s = if thorough { 5 } else { 3 };
     for shards in 1..=max_s {
         // base placements: round robin; everything on shard 0 except the last report
         let mut bases: Vec<Vec<Vec<usize>>> = vec![(0..shards).map(|s| (0..n).filter(|i| i % shards == s).collect()).collect()];
@@ -287,7 +289,7 @@ fn run() {
         }
     }
     // which shard each report is routed to, per helper (non-vacuity: copies land on other shards than they were submitted to)
-    for s in 2..=3 {
+    for s in 2..=max_s {
         for (i, e) in encs.iter().enumerate() {
             r.set("routing", format!("S{s}:report{i}->{:?}", (0..3).map(|h| e.target(h, s)).collect::<Vec<_>>()));
         }
